@@ -31,3 +31,11 @@ Theorem time_length_generated l : time_length l = gen_time_length l.
 Proof. reflexivity. Qed.
 Theorem stop_time_generated l : stop_time l = gen_stop_time l.
 Proof. reflexivity. Qed.
+
+(* fast_len: a plain time slice of the signal itself, z[ : prev_fast_len(len z)] (Gen/GenFastLenCrop.v, generated from transforms.fast_len) *)
+From PB Require Import Model.FastLen Gen.GenFastLenCrop.
+Theorem fast_len_generated (l : ledger) :
+  step l OFastLen = match gen_fast_len_lo (len l), gen_fast_len_hi (len l) with
+                    | Some lo, Some hi => time_slice l lo hi None
+                    | _, _ => Err 9 end.
+Proof. unfold step, gen_fast_len_lo, gen_fast_len_hi. destruct (prev_fast_len (len l)); reflexivity. Qed.
